@@ -1835,7 +1835,25 @@ static int64_t eval(Node *node) {
 // is a pointer to a global variable and n is a postiive/negative
 // number. The latter form is accepted only as an initialization
 // expression for a global variable.
+static int64_t eval3(Node *node, char ***label);
+
 static int64_t eval2(Node *node, char ***label) {
+  int64_t val = eval3(node, label);
+
+  // An address constant is not reduced; it is resolved by the linker.
+  if (label && *label)
+    return val;
+
+  // The result of a constant expression has the type of the
+  // expression. Reduce the 64-bit host value to that type.
+  if (node->ty->kind == TY_BOOL)
+    return val != 0;
+  if (is_integer(node->ty) && node->ty->size == 4)
+    return node->ty->is_unsigned ? (int64_t)(uint32_t)val : (int64_t)(int32_t)val;
+  return val;
+}
+
+static int64_t eval3(Node *node, char ***label) {
   add_type(node);
 
   if (is_flonum(node->ty))
@@ -1895,7 +1913,11 @@ static int64_t eval2(Node *node, char ***label) {
   case ND_LOGOR:
     return eval(node->lhs) || eval(node->rhs);
   case ND_CAST: {
+    if (node->ty->kind == TY_BOOL && is_flonum(node->lhs->ty))
+      return eval_double(node->lhs) != 0;
     int64_t val = eval2(node->lhs, label);
+    if (node->ty->kind == TY_BOOL)
+      return val != 0;
     if (is_integer(node->ty)) {
       switch (node->ty->size) {
       case 1: return node->ty->is_unsigned ? (uint8_t)val : (int8_t)val;
